@@ -66,6 +66,9 @@ func replay(args []string) {
 	if *family == "session" {
 		session.InstallHooks()
 	}
+	if *family == "mime" {
+		mimefam.InstallHooks()
+	}
 	pipeconn.Limit = 1024 // like a small socket buffer: a peer that stops reading blocks the writer
 
 	f, err := os.Open(*in)
